@@ -42,6 +42,7 @@ typedef LabeledDirectedGraph<L> G;
 #define OP_ADDREC_DEFAULT 11
 #define OP_FORCE_ADD 12  /* DUP>1 */
 #define OP_DEDUP 13      /* DUP>1 */
+#define OP_NONE 14       /* no step: observers on an arbitrary valid state */
 #ifndef OP
 #define OP OP_ADD
 #endif
@@ -165,6 +166,7 @@ extern "C" void harness() {
 
     // ------------------------------------------------------------------ observers on the post-state
     CHECK(g.getSize() == n2, "getSize is the vertex count");
+    CHECK(g.adjacencyList.size() == n2, "one neighbour list per vertex");
     unsigned i = n2 ? nd(n2) : 0, j = n2 ? nd(n2) : 0;
 #if OBS == 0
     CHECK(g.getEdgeNumber() == cnt, "getEdgeNumber counts the edges (one per copy)");
@@ -205,16 +207,25 @@ extern "C" void harness() {
     if (n2 > 0) {
         size_t col = 0; for (unsigned q = 0; q < NM; ++q) if (q < n2) col += C[q][j];
         CHECK(g.getInDegree(j) == col, "getInDegree is the number of predecessors");
-        CHECK(g.getInDegrees()[j] == col, "getInDegrees agrees with getInDegree");
-        CHECK(g.getAdjacencyMatrix()[i][j] == C[i][j], "adjacency matrix entry is the number of copies of (i,j)");
         if (col > 1) REACH("observed vertex has several predecessors");
     }
 #elif OBS == 3
     if (n2 > 0) {
+        size_t col = 0; for (unsigned q = 0; q < NM; ++q) if (q < n2) col += C[q][j];
+        CHECK(g.getInDegrees()[j] == col, "getInDegrees lists the number of predecessors of every vertex");
+        if (col > 1) REACH("observed vertex has several predecessors");
+    } else CHECK(g.getInDegrees().size() == 0, "getInDegrees of a graph without vertices is empty");
+#elif OBS == 4
+    if (n2 > 0) {
+        CHECK(g.getAdjacencyMatrix()[i][j] == C[i][j], "adjacency matrix entry is the number of copies of (i,j)");
+        if (cnt > 1) REACH("adjacency matrix of a graph with several edges");
+    } else CHECK(g.getAdjacencyMatrix().size() == 0, "adjacency matrix of a graph without vertices is empty");
+#elif OBS == 5
+    {
         size_t total = 0; unsigned hits = 0;
         for (auto e : g.edges()) { ++total; if (e.first == i && e.second == j) ++hits; }
         CHECK(total == cnt, "edges() yields one item per edge copy");
-        CHECK(hits == C[i][j], "edges() yields (i,j) once per copy");
+        if (n2 > 0) CHECK(hits == C[i][j], "edges() yields (i,j) once per copy");
         if (cnt > 1) REACH("edges() enumerated several edges");
     }
 #endif
